@@ -10,7 +10,7 @@
     concat|axis|shapes|chunksizes
     stack|axis|shapes|chunksizes
     region|srcLen|srcChunk|tgtLen|tgtChunk|start|stop|step
-    qr|ndim|reduced(0/1)|floating(0/1)|colBlocks
+    qr|ndim|reduced(0/1)|floating(0/1)|colBlocks|shortRow(0/1)
     reduce|ndim|axes or n|n, int:<k>, dict, other
     bcast|xshape|shape
     roll|ndim|int, tuple:<k>, other|axes or n
@@ -81,8 +81,8 @@ def handle (line : String) : String :=
   | ["concat", ax, shapes, chunks] => (validateConcat (mkArrs shapes chunks) (int1 ax)).show
   | ["stack", ax, shapes, chunks] => (validateStack (mkArrs shapes chunks) (int1 ax)).show
   | ["region", a, b, c, d, e, f, g] => (validateRegion (mkRegion a b c d e f g)).show
-  | ["qr", nd, red, fl, cb] =>
-    (validateQr ⟨(parseNat? nd).getD 0, red == "1", fl == "1", (parseNat? cb).getD 1⟩).show
+  | ["qr", nd, red, fl, cb, sr] =>
+    (validateQr ⟨(parseNat? nd).getD 0, red == "1", fl == "1", (parseNat? cb).getD 1, sr == "1"⟩).show
   | ["reduce", nd, axes, se] =>
     let sev : SplitEvery := match se.splitOn ":" with
       | ["n"] => .none
